@@ -236,6 +236,12 @@ pub proof fn axiom_str_ext(a: &str, b: &str)
 pub assume_specification<I: core::slice::SliceIndex<str>>[ <str as core::ops::Index<I>>::index ](s: &str, index: I) -> (output: &<I as core::slice::SliceIndex<str>>::Output)
     ensures call_ensures(core::slice::SliceIndex::<str>::index, (index, s), output);
 
+/// a slice has at most usize::MAX elements (language guarantee; trusted)
+#[verifier::external_body]
+pub proof fn axiom_slice_len_fits<T>(s: &[T])
+    ensures s@.len() <= usize::MAX
+{}
+
 /// T4: `str::char_indices` as a vector of (byte offset, char)
 #[verifier::external_body]
 pub fn __vx_char_indices(s: &str) -> (r: Vec<(usize, char)>)
